@@ -45,8 +45,10 @@ structure Sess where
   maxItems : Nat := 50
   subsEnabled : Bool := true
   indexingPresent : Bool := false
-  route : PM := []
+  route : PM := []                   -- `_defaultMessageRoute`, rebuilt from the two lists below
   hasRouteKeys : Bool := false
+  routeKeys : List Bytes := []       -- PR_NAME_KEYS of `_defaultMessageRouteMessage`
+  routeFilts : Option (List (Option Filt)) := none   -- PR_NAME_FILTERS of it, if present (an item that is no filter archive = none)
   nextData : Option UpdMsg := none
   nextIdx : Option IdxMsg := none
   inbox : List String := []          -- what the client received since the last `pump` line
